@@ -128,6 +128,12 @@ class Recorder(protocol.Protocol):
     def dataReceived(self, data):
         self.log.append(("data", bytes(data)))
         self.world.app_events.append((self.side, self.label, "data", bytes(data)))
+        if getattr(self.world, "echo_side", None) == self.side:
+            # an application that answers: traffic in the other direction on the same subchannel
+            try:
+                self.transport.write(b"echo:" + bytes(data)[:64])
+            except Exception as e:
+                self.world.echo_errors.append(repr(e)[:100])
         hook = self.world.data_hooks.get((self.side, self.label))
         if hook:
             hook(self)
@@ -193,6 +199,8 @@ class DilMidWorld:
         self.pause_after = {}
         self.app_events = []
         self.data_hooks = {}
+        self.echo_side = None
+        self.echo_errors = []
         self._building_inbound = True
         self.logged = []
         self._obs = self._log
